@@ -882,7 +882,7 @@ func (t *Term) ref() string {
 	case OpConst:
 		return smtConst(t.w, t.val)
 	case OpVar:
-		return "|" + t.name + "|"
+		return "|in:" + t.name + "|"
 	}
 	return fmt.Sprintf("t%d", t.id)
 }
